@@ -294,7 +294,14 @@ fn apply_with_round_trip<const D: u8>(
     b: u64,
     reset: bool,
 ) {
+    let before = m.clone();
     let o = apply(sink, m, c, prv, op, side, a, b, reset, false);
+    if !o.ok {
+        // deposit and withdrawal are not atomic in the model crate; the run continues from the state
+        // before the failed call, as the on-chain revertible wrapper would (the partial state has
+        // been logged and is compared with the specification's)
+        *m = before;
+    }
     if op == "deposit" && o.ok && o.out > 0 {
         let mut copy = m.clone();
         apply(sink, &mut copy, c, prv, "withdraw", false, o.out, 0, false, true);
@@ -360,8 +367,11 @@ fn random_run<const D: u8>(rng: &mut Rng, sink: &mut Sink) {
     let kind = rng.below(10);
     if kind >= 3 {
         let amt = |rng: &mut Rng, hi: u64| rng.below(hi + 1);
-        let liq = (amt(rng, 60), amt(rng, 60));
         let with_pos = kind >= 7;
+        // open positions are always backed by some liquidity of their side (reserve validation of
+        // every operation that removes liquidity)
+        let lo = if with_pos { 5 } else { 0 };
+        let liq = (lo + amt(rng, 60 - lo), lo + amt(rng, 60 - lo));
         let imp_hi = *rng.pick(&[0u64, 1, 3, 8]);
         let supply = if rng.chance(1, 12) { 0 } else { (liq.0 + liq.1) * 10 * scale / gi(&c, "div") + rng.below(40) };
         let oi_l = if with_pos { rng.below(25) * 10 * scale } else { 0 };
